@@ -73,7 +73,7 @@ impl DeltaStream {
     // shorter than the 64000 byte chunk limit
     #[verifier::external_body]
     fn append_header(vec: &mut Vec<u8>, session: u64, from_serial: Serial, to_serial: Serial, created: DateTime<Utc>)
-        ensures trace(final(vec)@) == trace(old(vec)@).push(Tok::Header),
+        ensures trace(final(vec)@) == trace(old(vec)@).push(Tok::Header(session, Some(from_serial), to_serial)),
                 old(vec)@.len() == 0 ==> final(vec)@.len() <= 64000,
     { unimplemented!() }
 
@@ -95,10 +95,13 @@ impl DeltaStream {
 impl SnapshotStream {
     #[verifier::external_body]
     fn append_header(vec: &mut Vec<u8>, session: u64, to_serial: Serial, created: DateTime<Utc>)
-        ensures trace(final(vec)@) == trace(old(vec)@).push(Tok::Header),
+        ensures trace(final(vec)@) == trace(old(vec)@).push(Tok::Header(session, None, to_serial)),
                 old(vec)@.len() == 0 ==> final(vec)@.len() <= 64000,
     { unimplemented!() }
 }
+//@ fn PayloadDelta::serial
+//@ spec
+    ensures res == self.serial,
 //@ fn PayloadDelta::arc_iter
 //@ spec
     ensures res.delta == self, res.wf(), res.pos() == 0,
@@ -111,7 +114,7 @@ impl SnapshotStream {
         res.withdraw is Some, res.dl() == &*delta, res.wf(&*delta),
         // C18: a new stream has the whole document still to produce:
         // header, announced items, separator, withdrawn items, footer
-        res.rest(&*delta) == delta_document(&*delta),
+        res.rest(&*delta) == delta_document(&*delta, session, from_serial, to_serial),
 //@ entry
         broadcast use axiom_trace_empty;
 //@ fn SnapshotStream::new
@@ -119,7 +122,7 @@ impl SnapshotStream {
     ensures
         res.iter is Some, res.sn() == &*snapshot, res.wf(&*snapshot),
         // C18: a new stream has the whole document still to produce: header, all items, footer
-        res.rest(&*snapshot) == snapshot_document(&*snapshot),
+        res.rest(&*snapshot) == snapshot_document(&*snapshot, session, to_serial),
 //@ entry
         broadcast use axiom_trace_empty;
 //@ fn SnapshotStream::next
@@ -343,8 +346,8 @@ spec fn rest_items<'a>(d: &'a PayloadDelta, from: int, act: Action, first: bool)
 }
 
 // the complete document: header, announced items, separator, withdrawn items, footer
-spec fn delta_document<'a>(d: &'a PayloadDelta) -> Seq<Tok<'a>> {
-    seq![Tok::Header] + rest_items(d, 0, Action::Announce, true) + seq![Tok::Sep]
+spec fn delta_document<'a>(d: &'a PayloadDelta, session: u64, from_serial: Serial, to_serial: Serial) -> Seq<Tok<'a>> {
+    seq![Tok::Header(session, Some(from_serial), to_serial)] + rest_items(d, 0, Action::Announce, true) + seq![Tok::Sep]
         + rest_items(d, 0, Action::Withdraw, true) + seq![Tok::Footer]
 }
 
@@ -354,7 +357,7 @@ impl DeltaStream {
 
     // state invariant, relative to the change set d being streamed
     spec fn wf(&self, d: &PayloadDelta) -> bool {
-        &&& self.header matches Some(h) ==> trace(h@) == seq![Tok::Header] && self.announce is Some && self.first
+        &&& self.header matches Some(h) ==> trace::<'_>(h@).len() == 1 && self.announce is Some && self.first
                 && self.announce->Some_0.pos() == 0
         &&& self.announce matches Some(a) ==> *a.delta == *d && a.wf() && self.withdraw is Some
                 && self.withdraw->Some_0.pos() == 0 && (a.pos() == 0 ==> self.first)
@@ -363,7 +366,7 @@ impl DeltaStream {
 
     // the tokens this stream has still to produce
     spec fn rest<'a>(&self, d: &'a PayloadDelta) -> Seq<Tok<'a>> {
-        (if self.header is Some { seq![Tok::Header] } else { Seq::empty() })
+        (match self.header { Some(h) => trace(h@), None => Seq::empty() })
         + match self.announce {
             Some(a) => rest_items(d, a.pos(), Action::Announce, self.first) + seq![Tok::Sep]
                         + rest_items(d, 0, Action::Withdraw, true) + seq![Tok::Footer],
@@ -399,8 +402,8 @@ spec fn snap_rest<'a>(d: &'a PayloadSnapshot, from: int, first: bool) -> Seq<Tok
 }
 
 // the complete document: header, every item of the data set, footer
-spec fn snapshot_document<'a>(d: &'a PayloadSnapshot) -> Seq<Tok<'a>> {
-    seq![Tok::Header] + snap_rest(d, 0, true) + seq![Tok::Footer]
+spec fn snapshot_document<'a>(d: &'a PayloadSnapshot, session: u64, to_serial: Serial) -> Seq<Tok<'a>> {
+    seq![Tok::Header(session, None, to_serial)] + snap_rest(d, 0, true) + seq![Tok::Footer]
 }
 
 impl SnapshotStream {
@@ -409,7 +412,7 @@ impl SnapshotStream {
 
     spec fn wf(&self, d: &PayloadSnapshot) -> bool {
         &&& self.iter matches Some(it) ==> *it.snapshot == *d && it.wf()
-        &&& self.header matches Some(h) ==> trace(h@) == seq![Tok::Header] && h@.len() <= 64000
+        &&& self.header matches Some(h) ==> trace::<'_>(h@).len() == 1 && h@.len() <= 64000
                 && self.iter is Some && self.iter->Some_0.pos() == 0
         // after the first chunk at least one item is out (the header alone never fills a chunk)
         &&& self.header is None && self.iter is Some ==> self.iter->Some_0.pos() >= 1
@@ -419,7 +422,7 @@ impl SnapshotStream {
     spec fn rest<'a>(&self, d: &'a PayloadSnapshot) -> Seq<Tok<'a>> {
         match self.iter {
             Some(it) =>
-                (if self.header is Some { seq![Tok::Header] } else { Seq::empty() })
+                (match self.header { Some(h) => trace(h@), None => Seq::empty() })
                 + snap_rest(d, it.pos(), self.header is Some) + seq![Tok::Footer],
             None => Seq::empty(),
         }
